@@ -135,6 +135,11 @@ def sequential(ctx):
                 cmd = "pluginat %d" % (base + int(cmd.split("+")[1]))
             got = ask(cmd)
             hist.append(cmd)
+            if got == "":          # driver died: a crash of the real registry code is an observation
+                p.poll()
+                ctx.violation("registry:crash", "registry driver died (rc=%s) at '%s' after history %s" % (
+                    p.returncode, cmd, [h for h in hist if h.startswith("regplugin")]), {"mode": "registry", "script": hist})
+                return len(paths)
             if kind == "base":
                 base = int(got)
                 continue
